@@ -5,7 +5,7 @@ correspondence against layout21raw::Library::from_gds + Layout::flatten (harness
 
 A case is {"fam": family, "lib": GDSII library (gdscommon shape, strings as bytes), "noflat": bool}.
 The model variant (Raw/RawGds.v [cfg]) is read from the SOURCE of the importer on every run ([model_cfg])."""
-import json, os, re, copy
+import json, os, re, copy, time
 from vlib import *
 from props import gdscommon as G
 
@@ -13,7 +13,7 @@ HDR = ("From Coq Require Import ZArith List String Bool.\nImport ListNotations.\
        "From L21 Require Import Base.Hex Gds.GdsData Raw.RawData Raw.RawGds Raw.RawGdsCheck.\n"
        "Open Scope Z_scope.\n")
 MODEL_TARGETS = ["Raw/RawGdsCheck.vo"]
-PROOF_FILES = ["Raw/RawGds_proofs.v"]
+PROOF_FILES = ["Raw/RawGds_proofs.v", "Raw/RawGdsSafe_proofs.v"]
 
 # ------------------------------------------------------------------ which code does the tree carry
 CFG_FIELDS = ["dims", "cap", "deg", "lattice", "emptyxy", "mag", "width", "contains", "pico", "pathdiag"]
@@ -225,7 +225,7 @@ class Gen:
         """convention: 'axis' = XY axis-parallel whatever the angle; 'gds' = lattice vectors rotated with the angle (what GDSII
         writers produce); 'skew' = any two vectors"""
         r = self.rng
-        cols, rows = dims or (r.choice([1, 2, 3, 7]), r.choice([1, 2, 3, 7]))
+        cols, rows = dims or (r.choice([1, 2, 3, 3, 2, 7]), r.choice([1, 2, 2, 3, 7]))
         st = self.strans()
         px_, py_ = r.choice([0, 1, 5, 10, 33, -7]), r.choice([0, 1, 4, 12, 40, -9])
         convention = convention or r.choice(["axis", "axis", "gds", "gds", "skew"])
@@ -254,7 +254,7 @@ class Gen:
         if targets:
             for _ in range(r.choice([1, 1, 2, 3]) if nrefs is None else nrefs):
                 t = r.choice(targets)
-                els.append(self.aref(t) if arefs and r.random() < 0.4 else self.sref(t))
+                els.append(self.aref(t, dims=(r.choice([1, 2, 3, 3, 7]), r.choice([1, 2, 2, 3]))) if arefs and r.random() < 0.4 else self.sref(t))
         if r.random() < 0.6:
             r.shuffle(els)
         return els
@@ -303,6 +303,7 @@ def directed_cases():
     add("d_aref_angle_axisxy", [L, mkstruct("top", [e_aref("leaf", [0, 0, 20, 0, 0, 20], 2, 2, strans(False, 0.0))])])
     add("d_aref_angle_gdsxy", [L, mkstruct("top", [e_aref("leaf", [0, 0, 0, 20, -30, 0], 2, 3, strans(False, 90.0))])])
     add("d_aref_angle_gdsxy", [L, mkstruct("top", [e_aref("leaf", [0, 0, -20, 0, 0, -30], 2, 3, strans(True, 180.0))])])
+    add("d_aref_angle360", [L, mkstruct("top", [e_aref("leaf", [0, 0, 20, 0, 0, 80], 2, 2, strans(False, 360.0))])])
     add("d_aref_1x1", [L, mkstruct("top", [e_aref("leaf", [4, 4, 4, 4, 4, 4], 1, 1)])])
     add("d_aref_angle_1x1", [L, mkstruct("top", [e_aref("leaf", [4, 4, 4, 4, 4, 4], 1, 1, strans(False, 90.0))])])
     add("d_aref_angle_1x1", [L, mkstruct("top", [e_aref("leaf", [4, 4, 4, 4, 4, 4], 1, 1, strans(True, 270.0))])])
@@ -377,12 +378,12 @@ def gen_cases(chk):
         cases.append(dict(fam=fam, lib=lib))
     mult = 1 if quick else 12
     # well-formed hierarchies
-    for _ in range(420 * mult):
+    for _ in range(300 * mult):
         add("hier", g.hier())
-    for _ in range(120 * mult):
+    for _ in range(80 * mult):
         add("hier_nolabel", g.hier(labels=False))
     # single cells with many labelled shapes
-    for _ in range(260 * mult):
+    for _ in range(220 * mult):
         lay = g.layer()
         shapes = [g.shape(lay if rng.random() < 0.7 else None) for _ in range(rng.randrange(1, 5))]
         els = list(shapes)
@@ -394,10 +395,10 @@ def gen_cases(chk):
         add("labels", mklib([mkstruct("top", els)]))
     # every orientation x array convention, one array over a two-shape leaf
     leaf2 = mkstruct("leaf", [e_boundary(1, 0, rect_xy(0, 0, 3, 2)), e_path(2, 0, [0, 0, 4, 0, 4, 5], 2)])
-    for _ in range(160 * mult):
+    for _ in range(130 * mult):
         add("arrays", mklib([leaf2, mkstruct("top", [g.aref("leaf") for _ in range(rng.choice([1, 1, 2]))])]))
     # malformed: one defect planted in an otherwise well-formed hierarchy
-    for _ in range(200 * mult):
+    for _ in range(170 * mult):
         lib = g.hier(depth=rng.choice([2, 3]))
         kind = rng.choice(["dangling", "cyclic", "dims", "emptyxy", "absflags", "mag"])
         s = rng.choice(lib["structs"])
@@ -428,7 +429,7 @@ def gen_cases(chk):
         s["elems"].insert(pos, e)
         add("mal_" + kind, lib)
     # silent: non-right angles in a hierarchy
-    for _ in range(40 * mult):
+    for _ in range(30 * mult):
         lib = g.hier(depth=rng.choice([2, 3]), labels=False)
         refs = [el for s in lib["structs"] for el in s["elems"] if el["k"] in ("sref", "aref")]
         el = rng.choice(refs)
@@ -515,7 +516,8 @@ def all_features(lib):
                 if st and st["angle"] is not None:
                     f.add("aref-angle")
                     pitch = (e["cols"] > 1 and xy[2] != xy[0]) or (e["rows"] > 1 and xy[5] != xy[1])
-                    if axis and pitch and st["angle"] not in (G.f2b(0.0), G.f2b(360.0), 1 << 63):
+                    # (as found the pitch is rotated in floating point and truncated: even ANGLE 360 moves it)
+                    if axis and pitch and st["angle"] not in (G.f2b(0.0), 1 << 63):
                         f.add("aref-lattice")
             if k in ("boundary", "path") and len(e["xy"]) == 0:
                 f.add("empty-xy")
@@ -567,35 +569,88 @@ def struct_f(bits):
 def lib_size(lib):
     return sum(3 + len(e.get("xy", [])) + (4 if e.get("strans") else 0) for s in lib["structs"] for e in s["elems"]) + 5 * len(lib["structs"])
 
-# ------------------------------------------------------------------ Coq terms of the implementation's output
+# ------------------------------------------------------------------ Coq terms (short constructors of RawGdsCheck.W:
+# the cost of a case is the elaboration of its term, about 10 us per character)
+def zn(n):
+    return str(n) if n >= 0 else "(%d)" % n
+def zl(xs):
+    return "[" + ";".join(zn(x) for x in xs) + "]"
+def zo(x):
+    return "None" if x is None else "(Some %s)" % zn(x)
+def cb(b):
+    return '(unhex "%s")' % bytes(b).hex()
 def cs(s):
     if all(32 <= ord(ch) < 127 for ch in s):
-        return Raw('"%s"%%string' % s.replace('"', '""'))
-    return Raw('(str_of_bytes (unhex "%s"))' % s.encode("utf8").hex())
-def cpt(p):
-    return capp("mkpt", cz(p[0]), cz(p[1]))
+        return '"%s"%%string' % s.replace('"', '""')
+    return '(str_of_bytes (unhex "%s"))' % s.encode("utf8").hex()
+def cso(s):
+    return "None" if s is None else "(Some %s)" % cs(s)
+def gstrans(st):
+    if st is None:
+        return "None"
+    return "(W.tr %s %s %s %s %s)" % (cbool(st["r"]), cbool(st["am"]), cbool(st["aa"]), zo(st["mag"]), zo(st["angle"]))
+def gelem(e):
+    k = e["k"]
+    if k == "boundary":
+        return "W.gB %s %s %s" % (zn(e["layer"]), zn(e["datatype"]), zl(e["xy"]))
+    if k == "box":
+        return "W.gX %s %s %s" % (zn(e["layer"]), zn(e["boxtype"]), zl(e["xy"]))
+    if k == "path":
+        return "W.gP %s %s %s %s %s" % (zn(e["layer"]), zn(e["datatype"]), zl(e["xy"]), zo(e["width"]), zo(e["path_type"]))
+    if k == "text":
+        return "W.gT %s %s %s %s %s" % (cb(e["string"]), zn(e["layer"]), zn(e["texttype"]), zn(e["xy"][0]), zn(e["xy"][1]))
+    if k == "node":
+        return "W.gN %s %s %s" % (zn(e["layer"]), zn(e["nodetype"]), zl(e["xy"]))
+    if k == "sref":
+        return "W.gS %s %s %s %s" % (cb(e["name"]), zn(e["xy"][0]), zn(e["xy"][1]), gstrans(e["strans"]))
+    if k == "aref":
+        return "W.gA %s %s %s %s %s" % (cb(e["name"]), zl(e["xy"]), zn(e["cols"]), zn(e["rows"]), gstrans(e["strans"]))
+    raise ValueError(k)
+def compact_ok(lib):
+    """the short constructors fix version 3, zero dates, no elflags / plex / properties, no begin/end extension, no
+    presentation / strans on texts: what the generators of this file produce (and what the importer never reads)"""
+    for s in lib["structs"]:
+        for e in s["elems"]:
+            if e.get("elflags") is not None or e.get("plex") is not None or e.get("props"):
+                return False
+            if e["k"] == "path" and (e.get("begin_extn") is not None or e.get("end_extn") is not None):
+                return False
+            if e["k"] == "text" and any(e.get(f) is not None for f in ("presentation", "path_type", "width", "strans")):
+                return False
+    return True
+def glib(lib):
+    if not compact_ok(lib):
+        return G.to_coq(lib)
+    return Raw("(W.gL %s %s %s [%s])" % (cb(lib["name"]), zn(lib["units"][0]), zn(lib["units"][1]),
+               ";".join("W.gSt %s [%s]" % (cb(s["name"]), ";".join(gelem(e) for e in s["elems"])) for s in lib["structs"])))
+
 def cpurpose(p):
     if isinstance(p, str):
-        return Raw(p)
+        return p
     if "Other" in p:
-        return capp("Other", cz(p["Other"]))
-    return capp("Named", cs(p["Named"][0]), cz(p["Named"][1]))
+        return "(Other %s)" % zn(p["Other"])
+    return "(Named %s %s)" % (cs(p["Named"][0]), zn(p["Named"][1]))
+def flat_pts(ps):
+    return zl([c for p in ps for c in p])
 def cshape(s):
     if "R" in s:
-        return capp("Rect", cpt(s["R"][0]), cpt(s["R"][1]))
+        return "(W.rR %s %s %s %s)" % (zn(s["R"][0][0]), zn(s["R"][0][1]), zn(s["R"][1][0]), zn(s["R"][1][1]))
     if "G" in s:
-        return capp("Polygon", clist([cpt(p) for p in s["G"]]))
-    return capp("Path", clist([cpt(p) for p in s["P"][0]]), cz(s["P"][1]))
+        return "(W.rG %s)" % flat_pts(s["G"])
+    return "(W.rP %s %s)" % (zn(s["P"][1]), flat_pts(s["P"][0]))
 def celem(e):
-    return capp("mkelem", copt(None if e["net"] is None else cs(e["net"])), cnat(e["layer"]), cpurpose(e["purpose"]), cshape(e["shape"]))
+    p = e["purpose"]
+    if isinstance(p, dict) and "Other" in p:
+        return "W.rE %s %s %s %s" % (cso(e["net"]), zn(e["layer"]), zn(p["Other"]), cshape(e["shape"]))
+    return "W.rEp %s %s %s %s" % (cso(e["net"]), zn(e["layer"]), cpurpose(p), cshape(e["shape"]))
 def cinst(i):
-    return capp("mkinst", cs(i["name"]), cnat(i["cell"]), cpt(i["loc"]), cbool(i["reflect"]), copt(None if i["angle"] is None else cz(i["angle"])))
+    return "W.rI %s %s %s %s %s %s" % (cs(i["name"]), zn(i["cell"]), zn(i["loc"][0]), zn(i["loc"][1]), cbool(i["reflect"]), zo(i["angle"]))
 
 NAME_RE = re.compile(r"^(.*)\[(\d+)\]\[(\d+)\]$", re.S)
 def cinsts(insts):
     """short lists literally; long ones as single instances and lattices whose expansion is verified here to be the list"""
     if len(insts) <= 120:
-        return clist([cinst(i) for i in insts])
+        return "[" + ";".join(cinst(i) for i in insts) + "]"
     segs = []
     k = 0
     n = len(insts)
@@ -605,7 +660,6 @@ def cinsts(insts):
         done = False
         if m and m.group(2) == "0" and m.group(3) == "0":
             pre = m.group(1)
-            # rows = number of consecutive [0][j]
             rows = 0
             while k + rows < n and insts[k + rows]["name"] == "%s[0][%d]" % (pre, rows):
                 rows += 1
@@ -627,37 +681,36 @@ def cinsts(insts):
                     if not ok:
                         break
                 if ok:
-                    segs.append(capp("ILattice", cs(pre), cnat(i0["cell"]), cz(x0), cz(y0), cz(cd[0]), cz(cd[1]), cz(rd[0]), cz(rd[1]), cz(cols), cz(rows),
-                                     cbool(i0["reflect"]), copt(None if i0["angle"] is None else cz(i0["angle"]))))
+                    segs.append("W.rLat %s %s %s %s %s %s %s %s %s %s %s %s" % (cs(pre), zn(i0["cell"]), zn(x0), zn(y0), zn(cd[0]), zn(cd[1]), zn(rd[0]), zn(rd[1]),
+                                zn(cols), zn(rows), cbool(i0["reflect"]), zo(i0["angle"])))
                     k += rows * cols
                     done = True
         if not done:
-            segs.append(capp("ISingle", cinst(i0)))
+            segs.append("ISingle (%s)" % cinst(i0))
             k += 1
-    return capp("expand_insts", clist(segs))
+    return "(expand_insts [" + ";".join(segs) + "])"
 
 def clayers_obs(obs):
-    return clist([capp("mklayer", cz(l["num"]), copt(None if l["name"] is None else cs(l["name"])),
-                       clist([ctup(cz(p[0]), cpurpose(p[1])) for p in l["pairs"]])) for l in obs])
+    return "[" + ";".join("mklayer %s %s [%s]" % (zn(l["num"]), cso(l["name"]), ";".join("(%s,%s)" % (zn(p[0]), cpurpose(p[1])) for p in l["pairs"])) for l in obs) + "]"
 def table_consistent(L):
     return all(l["keynum"] is True and all(p[2] == p[0] for p in l["pairs"]) for l in L["layers"])
 def clib(L):
     cells = []
     for c in L["cells"]:
         l = c["layout"]
-        lay = copt(None) if l is None else copt(capp("mklayout", cs(l["name"]), cinsts(l["insts"]), clist([celem(e) for e in l["elems"]]),
-                                                     clist([capp("mktext", cs(a[0]), cpt(a[1])) for a in l["annots"]])))
+        lay = "None" if l is None else "(Some (mklayout %s %s [%s] [%s]))" % (cs(l["name"]), cinsts(l["insts"]), ";".join(celem(e) for e in l["elems"]),
+                                                                             ";".join("W.rT %s %s %s" % (cs(a[0]), zn(a[1][0]), zn(a[1][1])) for a in l["annots"]))
         # the importer never creates abstracts: a cell with one can equal no model cell
-        cells.append(capp("mkcell", cs(c["name"]), Raw("None") if not c["abs"] else Raw("(Some (mkabstract EmptyString [] [] []))"), lay))
-    return capp("mklib", cs(L["name"]), Raw(L["units"]), clayers_obs(L["layers"]), clist(cells))
+        cells.append("mkcell %s %s %s" % (cs(c["name"]), "None" if not c["abs"] else "(Some (mkabstract EmptyString [] [] []))", lay))
+    return "(mklib %s %s %s [%s])" % (cs(L["name"]), L["units"], clayers_obs(L["layers"]), ";".join(cells))
 def cflat(f, noflat):
     if noflat or f is None:
-        return Raw("FNotRun")
+        return "FNotRun"
     if "ok" in f:
-        return capp("FOk", clist([celem(e) for e in f["ok"]]))
+        return "FOk [" + ";".join(celem(e) for e in f["ok"]) + "]"
     if "err" in f:
-        return Raw("FErr")
-    return Raw("FPanic")
+        return "FErr"
+    return "FPanic"
 def cimpl(r, noflat):
     lib = r["lib"]
     if "panic" in lib and len(lib) == 1:
@@ -665,7 +718,7 @@ def cimpl(r, noflat):
     if "err" in lib and len(lib) == 1:
         return Raw("MErr")
     flats = r.get("flat") or [None] * len(lib["cells"])
-    return capp("MLib", clib(lib), clist([cflat(f, noflat) for f in flats]))
+    return Raw("(MLib %s [%s])" % (clib(lib), ";".join(cflat(f, noflat) for f in flats)))
 
 def probes_of(lib):
     s = set(range(-1, 13))
@@ -692,7 +745,9 @@ def evaluate(chk, cases, cfg, tag):
             fc = [x for x in flat_counts(c["lib"]) if x is not None]
             c["noflat"] = bool(fc and max(fc) > 1200)
     hc = [{"op": "import", "gds": jsonable(c["lib"]), "layers": None, "probe": probes_of(c["lib"]), "noflat": c["noflat"]} for c in cases]
+    t0 = time.time()
     res = harness("c06", hc, timeout=1500)
+    chk.cov.setdefault("timing_s", {})["harness_" + tag] = round(time.time() - t0, 1)
     out = [None] * len(cases)
     items, idx = [], []
     for i, (c, r) in enumerate(zip(cases, res)):
@@ -702,12 +757,16 @@ def evaluate(chk, cases, cfg, tag):
         if isinstance(r["lib"], dict) and "cells" in r["lib"] and not table_consistent(r["lib"]):
             out[i] = (1, 0, {"harness_glue": "layer table: num(purpose(n)) != n or keynum(num) is another slot", "layers": r["lib"]["layers"]})
             continue
-        items.append(capp("c06_check", Raw(cfg), clist([cz(p) for p in probes_of(c["lib"])]), Raw("[]"), G.to_coq(c["lib"]), cimpl(r, c["noflat"])))
+        items.append(capp("c06_check", Raw(cfg), Raw(zl(probes_of(c["lib"]))), Raw("[]"), glib(c["lib"]), cimpl(r, c["noflat"])))
         idx.append(i)
-    # big cases first so that the shards finish together
-    order = sorted(range(len(items)), key=lambda k: -len(items[k]))
-    shard = max(8, -(-len(items) // (NCPU * 2)))
+    # balance the shards: sort by size, deal the items out round-robin (coq_eval_lists cuts consecutive chunks)
+    by_size = sorted(range(len(items)), key=lambda k: -len(items[k]))
+    nsh = max(1, min(NCPU * 2, -(-len(items) // 8)))
+    shard = -(-len(items) // nsh)
+    order = [by_size[j] for sh in range(nsh) for j in range(sh, len(by_size), nsh)]
+    t0 = time.time()
     strs = coq_eval_lists(HDR, [items[k] for k in order], chk.rundir, tag, shard=shard, timeout=2400)
+    chk.cov["timing_s"]["coq_" + tag] = round(time.time() - t0, 1)
     for k, s in zip(order, strs):
         v = parse_z(s)
         r = res[idx[k]]
@@ -725,7 +784,9 @@ def impl_detail(r, limit=1200):
     return r if len(s) <= limit else s[:limit] + "..."
 
 def run(chk, replay=None):
+    t0 = time.time()
     chk.proof_leg(MODEL_TARGETS, "Properties/C06.v", PROOF_FILES + ["Raw/RawFlatten_proofs.v"], "Properties.C06")
+    chk.cov.setdefault("timing_s", {})["proof_leg"] = round(time.time() - t0, 1)
     chk.assumptions += [
         "isize/usize are 64 bit; the harness is built with overflow checks (an integer overflow is a panic)",
         "GDSII struct names are pairwise distinct (GdsDepOrder keys its sets by name, the model by struct index); label strings are ASCII (`to_lowercase` is modelled on ASCII)",
@@ -747,7 +808,9 @@ def run(chk, replay=None):
         obj = json.load(open(replay))["replay"]
         cases = [unjson(c) for c in obj.get("cases", [])]
     else:
+        t0 = time.time()
         cases = gen_cases(chk)
+        chk.cov["timing_s"]["generate"] = round(time.time() - t0, 1)
     dist = {}
     for c in cases:
         dist[c["fam"]] = dist.get(c["fam"], 0) + 1
